@@ -200,6 +200,10 @@ func cmdUHist(o *Out, line string, f []string) {
 	}
 	// oracle (C17, C11-like): a metadata document in the output is the one that is set at that moment
 	checkMeta := func(out []byte, where string) {
+		if meta != "" && len(out) > 0 && len(metaDocsIn(out)) == 0 {
+			bad("the output does not carry the metadata document that is set", map[string]string{"where": where})
+			return
+		}
 		for _, m := range metaDocsIn(out) {
 			if m != meta {
 				bad("the output carries a metadata document that is not the one currently set", map[string]string{"where": where})
@@ -257,6 +261,13 @@ func cmdUHist(o *Out, line string, f []string) {
 				meta = hx(pool[int(atoi64(op[1:]))])
 			}
 			obs = append(obs, "m")
+		case 'M':
+			// metadata the collector cannot read: refused, and what was set before stays
+			if c.SetMetadata(map[string]string{"not": "a document"}) != nil {
+				obs = append(obs, "Me")
+			} else {
+				obs = append(obs, "Mo")
+			}
 		case 'i':
 			info := c.Info()
 			obs = append(obs, fmt.Sprintf("I%d,%d", info.MetricsCount, info.SampleCount))
@@ -381,7 +392,7 @@ func streamUncompressed(o *Out, rng *rand.Rand, thorough bool, _ []string) {
 		// an empty sample document (no fields at all): a sample like any other
 		hx(docBytes(nil)),
 	}
-	alphabet := []string{"a0", "a1", "a2", "a3", "a4", "a5", "a8", "a9", "x", "r", "z", "f", "m6", "m7", "i"}
+	alphabet := []string{"a0", "a1", "a2", "a3", "a4", "a5", "a8", "a9", "x", "r", "z", "f", "m6", "m7", "M", "i"}
 	maxLen := 3
 	if thorough {
 		maxLen = 4
